@@ -54,6 +54,14 @@ func init() {
 		"vfSharedWrites": vfSharedWrites,
 		"vfFail":        vfFail,
 		"vfTimeouts":    vfTimeouts,
+		// vfSchedPolicy(k): which runnable goroutine continues when the current one blocks
+		// (0 oldest, 1 newest, 2 alternating, 3 fixed pseudo-random sequence)
+		"vfSchedPolicy": func(fr *frame, args []value) value {
+			fr.i.ex.impure("vfSchedPolicy")
+			fr.i.ex.sched.Policy = int(asInt64(args[0]))
+			return nil
+		},
+		"vfScanNondeterminism": vfScanNondeterminism,
 		// vfHammer(f): run f (twice, sequentially) - natively it is run from several goroutines at once
 		"vfHammer": func(fr *frame, args []value) value {
 			fr.i.ex.impure("vfHammer")
